@@ -1,6 +1,17 @@
 """fill the seeded-changes table of DESIGN.md from seeded/*/meta.json"""
 import glob, json, os, re
-rows = ["| seed | property | change (files) | needs | demo 0/1 | suite | checks run -> result |", "|---|---|---|---|---|---|---|"]
+rows = ["| seed | property | change (files) | needs | demo 0/1 | suite | checks run -> result | re-confirmed on HEAD (tools/seedrecheck.py) |", "|---|---|---|---|---|---|---|---|"]
+def recheck(m):
+    r = m.get("recheck")
+    if not r:
+        return ""
+    if r.get("error") or not r.get("applies", True):
+        return f"{r.get('head')}: " + (r.get("error") or "patch does not apply")[:60]
+    how = "no-failing-input-found" if not r.get("concrete_input") else (r.get("failing_classes") or "").replace("failing classes: ", "")[:110]
+    return (f"{r.get('head')}: demo {r.get('demo_exit_without_change')}/{r.get('demo_exit_with_change')}, "
+            + (f"suite {'pass' if r.get('suite_ok') else 'FAIL'}, " if "suite_ok" in r else "") + ("VIOLATION " + how if r.get("caught") else "MISSED"))
+
+
 for d in sorted(glob.glob("/verif/seeded/*/")):
     m = json.load(open(d + "meta.json"))
     notes = open(d + "notes.md").read() if os.path.exists(d + "notes.md") else ""
@@ -10,7 +21,7 @@ for d in sorted(glob.glob("/verif/seeded/*/")):
         needs = (mm.group(0).strip()[:160] if mm else "")
     res = "; ".join(f"{c}: " + ("VIOLATION " + ("(no-failing-input-found)" if r.get("violation_line") and "no-failing-input-found" in r["violation_line"] else (r.get("failing_classes") or "").replace("failing classes: ", "")[:110]) if r["exit"] else "exit 0 (MISSED)") for c, r in m.get("checks", {}).items())
     rows.append(f"| {m['id']} | {m['breaks_property']} | {', '.join(m.get('files_changed', []))} | {needs.replace('|', '/')} | {m.get('demo_exit_without_change')}/{m.get('demo_exit_with_change')} | "
-                f"{'pass' if m.get('suite_ok') else m.get('suite_tail', 'n/a')[:30]} | {res.replace('|', '/')} |")
+                f"{'pass' if m.get('suite_ok') else m.get('suite_tail', 'n/a')[:30]} | {res.replace('|', '/')} | {recheck(m).replace('|', '/')} |")
 s = open("/verif/DESIGN.md").read()
 tbl = "<!-- SEEDED_TABLE_BEGIN -->\n" + "\n".join(rows) + "\n<!-- SEEDED_TABLE_END -->"
 if "SEEDED_TABLE_BEGIN" in s:
